@@ -34,7 +34,10 @@ def _proj():
 _SRP_PY = "class Ledger:\n" + "".join(f"    def op{i}(self):\n        return {i}\n" for i in range(3))
 _SRP_TS = "class Ledger {\n" + "".join(f"  op{i}() {{\n    return {i};\n  }}\n" for i in range(3)) + "}\n"
 _SRP_RS = "struct Ledger {\n    x: i32,\n}\nimpl Ledger {\n" + "".join(f"    pub fn op{i}(&self) -> i32 {{\n        {i}\n    }}\n" for i in range(3)) + "}\n"
+_RS_TESTS = ("fn production(s: &str) -> i32 {\n    let v = s.parse::<i32>().unwrap();\n    v\n}\n\n#[test]\n#[ignore]\nfn checks_parse() {\n    let v = \"1\".parse::<i32>().unwrap();\n"
+             "    assert_eq!(v, 1);\n}\n\n#[cfg(test)]\nmod tests {\n    use super::*;\n\n    fn helper() -> i32 {\n        \"2\".parse::<i32>().unwrap()\n    }\n}\n")
 AT_LIMIT = {
+    "unwrap-with-tests.rs": ("rust", _RS_TESTS, None),
     "srp-at-loc-limit.py": ("python", _SRP_PY, {"srp": {"max_loc": 7, "max_methods": 3}}),
     "srp-at-loc-limit.ts": ("typescript", _SRP_TS, {"srp": {"max_loc": 11, "max_methods": 3}}),
     "srp-at-loc-limit.rs": ("rust", _SRP_RS, {"srp": {"max_loc": 14, "max_methods": 3}}),
